@@ -60,6 +60,17 @@ template<int B> static void formulations_case(const Pattern &pb, bool incomplete
     { typedef amgcl::make_block_solver<amgcl::amg<BB,co::as_scalar<co::smoothed_aggregation>::template type,rx::damped_jacobi>, sv::cg<BB>> CS; typename CS::params p; p.solver.maxiter=k; p.solver.tol=scalar(0); p.solver.abstol=scalar(0); p.precond.coarse_enough=1; p.precond.coarsening.aggr.block_size=B; CS s(*Sm,p); solve_truth<CS>("block backend with coarsening::as_scalar<smoothed_aggregation>",S,[&](NV &F, NV &X){ return s(F,X); }); }
     { typedef be::builtin_hybrid<Blk<B>> HB; typedef amgcl::make_solver<amgcl::amg<HB,co::smoothed_aggregation,rx::spai0>, sv::cg<HB>> HS; typename HS::params p; p.solver.maxiter=k; p.solver.tol=scalar(0); p.solver.abstol=scalar(0); p.precond.coarse_enough=B; p.precond.coarsening.aggr.block_size=B; HS s(*Sm,p); solve_truth<HS>("hybrid backend (scalar setup, block solve)",S,[&](NV &F, NV &X){ return s(F,X); }); } },coo); }
 
+// coarsening::as_scalar<C> on a block matrix = C with aggr.block_size on the scalar matrix, converted to blocks; restriction = transpose of prolongation
+template<int B> static void as_scalar_case(const Pattern &pb) { hx::run_case("as_scalar/b"+std::to_string(B)+"/"+pb.name, [&]() { hx::Rng rng(11); SCrs S=blocked(pb,B,false,false,rng); int n=S.n; auto Sm=hx::to_amgcl(S); typedef be::builtin<Blk<B>> BB; typedef be::crs<Blk<B>,ptrdiff_t,ptrdiff_t> BM;
+    BM Ab(amgcl::adapter::block_matrix<Blk<B>>(*Sm)); typedef typename co::as_scalar<co::smoothed_aggregation>::template type<BB> AS; typename AS::params prm; prm.aggr.block_size=B; AS c(prm);
+    std::shared_ptr<BM> P, R; std::tie(P,R)=c.transfer_operators(Ab);
+    co::smoothed_aggregation<SB> cs(prm); auto PRs=cs.transfer_operators(*Sm); auto &Ps=*std::get<0>(PRs);
+    auto expand=[&](const BM &M, size_t rows, size_t cols) { std::vector<std::vector<scalar>> d(rows*B,std::vector<scalar>(cols*B,scalar(0))); for (size_t I=0;I<M.nrows;++I) for (ptrdiff_t k=M.ptr[I];k<M.ptr[I+1];++k) for (int r=0;r<B;++r) for (int q=0;q<B;++q) d[I*B+r][M.col[k]*B+q]=d[I*B+r][M.col[k]*B+q]+M.val[k](r,q); return d; };
+    hx::require("as_scalar: block prolongation has the blocked shape of the scalar one", P->nrows*B==Ps.nrows && P->ncols*B==Ps.ncols && R->nrows==P->ncols && R->ncols==P->nrows); if (P->nrows*B!=Ps.nrows || P->ncols*B!=Ps.ncols) return;
+    auto Pd=expand(*P,P->nrows,P->ncols), Rd=expand(*R,R->nrows,R->ncols); std::vector<std::vector<scalar>> Psd(Ps.nrows,std::vector<scalar>(Ps.ncols,scalar(0))); for (size_t i=0;i<Ps.nrows;++i) for (ptrdiff_t k=Ps.ptr[i];k<Ps.ptr[i+1];++k) Psd[i][Ps.col[k]]=Psd[i][Ps.col[k]]+Ps.val[k];
+    std::vector<scalar> a, b, c1, c2; for (size_t i=0;i<Pd.size();++i) for (size_t j=0;j<Pd[i].size();++j) { a.push_back(Pd[i][j]); b.push_back(Psd[i][j]); c1.push_back(Rd[j][i]); c2.push_back(Pd[i][j]); }
+    hx::prove_eq_vec("as_scalar: block prolongation = scalar prolongation (aggr.block_size), entry by entry", a, b); hx::prove_eq_vec("as_scalar: restriction = transpose of the prolongation", c1, c2); }); }
+
 // complex system vs its real-equivalent 2n x 2n form through adapter::complex
 static void complex_case(const Pattern &p) { hx::run_case("complex_adapter/"+p.name, [&]() { typedef std::complex<scalar> CX; int n=p.n; hx::Crs<CX> A; A.n=A.m=n; A.ptr=p.ptr; A.col=p.col; for (int i=0;i<n;++i) for (ptrdiff_t k=p.ptr[i];k<p.ptr[i+1];++k) A.val.push_back(CX(var("ar_"+std::to_string(i)+"_"+std::to_string(p.col[k]), i==p.col[k]?4.0:-1.0), var("ai_"+std::to_string(i)+"_"+std::to_string(p.col[k]), 0.5-0.25*(k%3))));
     auto tup=std::tie(n,A.ptr,A.col,A.val); auto Rm=amgcl::adapter::complex_matrix(tup); be::crs<scalar,ptrdiff_t,ptrdiff_t> R(Rm); hx::require("complex adapter: real form is 2n x 2n", R.nrows==(size_t)2*n && R.ncols==(size_t)2*n);
@@ -80,5 +91,6 @@ int main(int argc, char **argv) {
     for (auto &p : std::vector<Pattern>{hx::band_pattern(3,1),hx::grid_pattern(2,2)}) { formulations_case<2>(p,false,1); formulations_case<2>(p,true,1); if (T) { formulations_case<2>(p,true,2); formulations_case<3>(p,true,1); } }
     if (!T) formulations_case<3>(hx::band_pattern(2,1),true,1);
     for (auto &p : std::vector<Pattern>{hx::dense_pattern(1,1),hx::dense_pattern(2,2),hx::band_pattern(3,1),hx::mask_pattern(3,3,0x0a2,true),hx::mask_pattern(2,2,0x4,false)}) complex_case(p);
+    for (auto &pb : std::vector<Pattern>{hx::band_pattern(4,1),hx::grid_pattern(3,2),hx::grid_pattern(3,3)}) { as_scalar_case<2>(pb); if (pb.n<=6) as_scalar_case<3>(pb); }
     return hx::finish();
 }
